@@ -6,7 +6,7 @@ export GOFLAGS=-mod=mod GOPROXY=off GOSUMDB=off GOTOOLCHAIN=local
 V=/verif
 S=$1; BUF=$2; MAIN=$3; OUT=$4; shift 4
 mkdir -p "$S"
-[ -x $V/bin/chanxform ] || (cd $V/tools/chanxform && go build -o $V/bin/chanxform .)
+[ -x $V/bin/chanxform ] && [ $V/bin/chanxform -nt $V/tools/chanxform/main.go ] || (cd $V/tools/chanxform && go build -o $V/bin/chanxform .)
 [ -f $V/gen/go-lifecycle/lifecycle.go ] || $V/setup.sh gen-only
 REPO_PKGS=". ./client ./filter ./nsname ./join $(cd /repo && ls -d types/*/ | grep -v types/gen | sed 's#^#./#;s#/$##' | tr '\n' ' ')"
 SRCADD="/repo/zz_verif_export.go=$V/overlay/kcache/zz_verif_export.go"
@@ -16,7 +16,7 @@ for d in $V/overlay/types/*.go; do
   SRCADD="$SRCADD,/repo/types/$n/zz_verif_export.go=$d"
 done
 rm -f $S/overlay.json
-$V/bin/chanxform -q -dir /repo -out $S/src -overlay $S/overlay.json -bufconst EventBufsiz=$BUF -srcadd "$SRCADD" $REPO_PKGS
+$V/bin/chanxform -q -goprefix lib: -dir /repo -out $S/src -overlay $S/overlay.json -bufconst EventBufsiz=$BUF -srcadd "$SRCADD" $REPO_PKGS
 $V/bin/chanxform -q -dir $V -out $S/src -overlay $S/overlay.json -srcadd "$SRCADD" ./harness/...
 sed 's/^go 1\.1[0-9]$/go 1.20/' /repo/go.mod > $S/repo.go.mod
 python3 - "$S" <<'PY'
